@@ -26,9 +26,9 @@ func (Area) Exec(input string) string {
 func clone(x []string) []string { return append([]string{}, x...) }
 
 func (Area) Gen(r *rand.Rand, tier string, emit func(string)) {
-	maxMsgs, nrand, nun, ne := 2, 250, 14, 40
+	maxMsgs, nrand, nun, ne, nsweep := 2, 250, 14, 40, 2
 	if tier == "thorough" {
-		maxMsgs, nrand, nun, ne = 3, 8000, 150, 900
+		maxMsgs, nrand, nun, ne, nsweep = 3, 8000, 150, 900, 8
 	}
 	for _, cs := range []bool{false, true} {
 		for _, ss := range []bool{false, true} {
@@ -68,10 +68,35 @@ func (Area) Gen(r *rand.Rand, tier string, emit func(string)) {
 					}
 				}
 			}
-			// cancellation / deadline at every scheduler instant
-			for at := 0; at < 14+10*maxMsgs; at++ {
+			// Program points × fault kinds, enumerated: for each of a few FIXED release orders (seed in the line, so
+			// the schedule prefix is the same for every `at`), cancellation and deadline strike before EVERY
+			// scheduler decision of that schedule — i.e. at every settled configuration the call passes through:
+			// before stream creation, Outgoing.Stream pending, between the unary Send and CloseSend, between the
+			// spawn of the pumps and the first loop iteration, mid-stream, CloseSend pending, and during the
+			// deferred cleanup (outgoing.Close() pending, wg.Wait with a pump still inside a call). The driver tags
+			// every such case with the model's program point (`b=…@<pc>`), so the evidence shows the coverage.
+			for k := 0; k < nsweep; k++ {
+				seed := int64(7001 + 97*k)
+				for at := 0; at < 14+10*maxMsgs; at++ {
+					for _, kind := range []string{"c", "d"} {
+						emit(c01.Line(cs, ss, true, true, (at+k)%2 == 1, "b", ir, is, st, ow, or, fmt.Sprintf("%s@%d", kind, at), seed))
+					}
+				}
+			}
+			// the same with a target that fails / ends early, so that the deferred cleanup is entered with the
+			// request pump still parked (cancellation during Close / wg.Wait)
+			for at := 0; at < 16; at++ {
 				for _, kind := range []string{"c", "d"} {
-					emit(c01.Line(cs, ss, true, true, at%2 == 1, "b", ir, is, st, ow, or, fmt.Sprintf("%s@%d", kind, at), r.Int63n(1<<31)))
+					emit(c01.Line(cs, ss, true, true, at%2 == 1, "b", append(clone(ir[:len(ir)-1]), "B"), is, st, ow, []string{"e9"}, fmt.Sprintf("%s@%d", kind, at), 7333))
+				}
+			}
+			// unary request whose Send fails: cancellation while the explicit outgoing.Close() of forwardUnaryRequest
+			// is pending (program point uCloseErr) and around it
+			if !cs {
+				for at := 0; at < 9; at++ {
+					for _, kind := range []string{"c", "d"} {
+						emit(c01.Line(cs, ss, true, true, at%2 == 1, "b", ir, is, st, []string{"e64"}, or, fmt.Sprintf("%s@%d", kind, at), 7444))
+					}
 				}
 			}
 			// the idle-client scenario: the target ends the call, the client neither sends nor closes
